@@ -8,10 +8,15 @@ _OVERLAY = {
 }
 _PKG = "./internal/rules/mechanisms/finalizers"
 
-# C16-F1 was repaired by fix: commit d9caf75, so the implementation is compared with the repaired variant of the model
-# (`check true`).  VERIF_C16_FIXED=0 compares with the pinned variant (to examine a checkout without the repair).
+# Which repairs the tree under test is expected to have = which variant of the model the implementation is compared with.
+# C16-F1: repaired by fix: commit d9caf75.  C16-F2: open (candidate fixes/C16-F2.diff); set _FIXED_F2 = True once it is applied.
+# VERIF_C16_FIXED="10" style overrides (first digit F1, second F2) are for examining other checkouts.
 import os as _os
-_FIXED_F1 = _os.environ.get("VERIF_C16_FIXED", "1") != "0"
+_FIXED_F1, _FIXED_F2 = True, False
+if _os.environ.get("VERIF_C16_FIXED"):
+    _v = _os.environ["VERIF_C16_FIXED"] + "00"
+    _FIXED_F1, _FIXED_F2 = _v[0] == "1", _v[1] == "1"
+_CHECK = "check (FX %s %s)" % (str(_FIXED_F1).lower(), str(_FIXED_F2).lower())
 
 P = {
     "id": "C16",
@@ -20,12 +25,12 @@ P = {
     "theorems_module": "Properties.C16",
     "theorems": ["C16_system_claims_win", "C16_exp_is_ttl_later", "C16_load_accepts_exactly_usable", "C16_load_never_panics",
                  "C16_header_names_active_key", "C16_token_verifies_against_published", "C16_jwks_public_only",
-                 "C16_run_meets_spec", "C16_run_meets_spec_pinned", "C16_F1_pinned_refuted", "C16_variant_overlays_catalogue", "C16_variant_token", "C16_nonvacuous",
+                 "C16_run_meets_spec", "C16_run_meets_property", "C16_run_meets_spec_pinned", "C16_F1_pinned_refuted", "C16_F2_pinned_refuted", "C16_variant_overlays_catalogue", "C16_variant_token", "C16_nonvacuous",
                  "C16_consistent_pair", "C16_sign_sees_one_load", "C16_torn_skeleton_refuted"],
     "streams": [{
         "name": "histories", "pkg": _PKG, "test": "TestVerifC16",
-        "overlay": _OVERLAY, "eval_module": "Run.Eval_C16", "check_term": "check true" if _FIXED_F1 else "check false",
-        "n_quick": 600, "n_thorough": 12000, "findings": {1: "C16-F1"}, "shard": 100,
+        "overlay": _OVERLAY, "eval_module": "Run.Eval_C16", "check_term": _CHECK,
+        "n_quick": 600, "n_thorough": 12000, "findings": {1: "C16-F1", 2: "C16-F2"}, "shard": 100,
     }, {
         "name": "skeleton", "pkg": _PKG, "test": "TestVerifC16Skel",
         "overlay": _OVERLAY, "eval_module": "Run.Eval_C16", "check_term": "check_skel",
@@ -34,7 +39,7 @@ P = {
         "name": "race", "pkg": _PKG, "test": "TestVerifC16Race",
         "overlay": _OVERLAY, "eval_module": "Run.Eval_C16", "check_term": "check_race", "race": True,
         "n_quick": 1, "n_thorough": 1, "findings": {}, "escalate": False,
-        "env": {"VERIF_C16_RACE_MS": 1500},
+        "env": {"VERIF_C16_RACE_MS": 1500, "VERIF_C16_RACE_CACHE": 1 if _FIXED_F2 else 0},
     }],
     "rule": "histories: a jwt finalizer configuration (key_id absent / an existing id / unknown; signer name; ttl incl. fractional and "
             "<= 5s / invalid; claims template of 0-4 members, 55% of them naming sub/iss/iat/nbf/exp/jti, values string/int/JSON/"
